@@ -58,6 +58,9 @@ def r2(ctx):
             for gen in comp.generators:
                 if gen.iter is rngs[0] and isinstance(gen.target, ast.Name):
                     sv = gen.target.id
+        for l_ in [x for x in walk_no_nested(g) if isinstance(x, ast.For)]:
+            if l_.iter is rngs[0] and isinstance(l_.target, ast.Name):
+                sv = l_.target.id
         ok_end = False
         endtxt = None
         for t in tups:
